@@ -208,6 +208,43 @@ func (n *Node) StoreBlock(b *chaingen.Block) error {
 	return n.BC.Store(blk, comm, su, cls)
 }
 
+// TestSigner is the deterministic block signer of the sequencer path.
+func TestSigner(blockHash, stateDiffCommitment *felt.Felt) ([]*felt.Felt, error) {
+	var r, s felt.Felt
+	r.Add(blockHash, felt.NewFromUint64[felt.Felt](1))
+	s.Add(stateDiffCommitment, felt.NewFromUint64[felt.Felt](2))
+	return []*felt.Felt{&r, &s}, nil
+}
+
+// SignedVariant gives the block the signature the sequencer path will produce for it (the
+// signature is not part of the block hash).
+func SignedVariant(b *chaingen.Block) {
+	comm := b.SU.StateDiff.Commitment()
+	sig, _ := TestSigner(b.B.Hash, &comm)
+	b.B.Signatures = [][]*felt.Felt{sig}
+}
+
+// FinaliseBlock pushes a block through the node's sequencer path: the node is handed the block
+// without hash, state root and signature, derives them itself, signs and stores it. What it
+// derived must be what the reference model and the protocol hash function say (b must be a
+// SignedVariant).
+func (n *Node) FinaliseBlock(b *chaingen.Block) error {
+	blk, su, cls := CloneBlock(b.B), CloneStateUpdate(b.SU), b.Classes
+	blk.Hash, blk.GlobalStateRoot, blk.Signatures = nil, nil, nil
+	// the caller supplies the root it builds on (the new state backend opens the state at it)
+	su.BlockHash, su.NewRoot = nil, nil
+	if err := n.BC.Finalise(blk, su, cls, TestSigner); err != nil {
+		return err
+	}
+	if got, want := canon(blk), canon(b.B); got != want {
+		n.c.Fail("finalise_differs", "block", "[%s%s] the block the node finalised differs from the expected one (block %d v%s):\n got  %s\n want %s", n.Name, backendName(n), b.B.Number, b.Version, got, want)
+	}
+	if got, want := canon(su), canon(b.SU); got != want {
+		n.c.Fail("finalise_differs", "state_update", "[%s%s] the state update the node finalised differs from the expected one (block %d v%s):\n got  %s\n want %s", n.Name, backendName(n), b.B.Number, b.Version, got, want)
+	}
+	return nil
+}
+
 func (n *Node) Height() (uint64, bool) {
 	h, err := n.BC.Height()
 	if err != nil {
